@@ -87,6 +87,8 @@ class Ctx(object):
         if m["tgt"] == "DLPOLY":
             cuts = [F(max(nr - 4, 1), 4), F(13, 2), F(10)]
         self.cutoff = cuts[idx % 3]
+        if idx % 7 == 3 and nr < 1000:
+            self.cutoff = F(628721, 100000)      # a cutoff with five decimals
         if nr >= 1000:      # fine grids: decimal cutoffs whose accumulated rounding differs (one job per variant)
             self.cutoff = [F(13, 2), F(10), F(12), F(15), F(20)][variant % 5]
         self.cutoff_rho = [F(max(nrho - 1, 1), 2), F(3), F(100)][(idx // 3) % 3] if nrho else F(100)
@@ -357,6 +359,26 @@ class Sink(object):
 
     def value(self):
         return (b"" if self.binary else "").join(self.writes)
+
+
+class StringSink(io.StringIO):
+    """the same record kept by a genuine io.StringIO (an in-memory text file is what API users hand to write())"""
+
+    def __init__(self):
+        io.StringIO.__init__(self)
+        self.binary = False
+        self.writes = []
+
+    def write(self, s):
+        self.writes.append(s)
+        return io.StringIO.write(self, s)
+
+    def writelines(self, lines):
+        for ln in lines:
+            self.write(ln)
+
+    def value(self):
+        return self.getvalue()
 
 
 def run_cli(args):
@@ -1147,7 +1169,7 @@ def _fault_one(idx):
             for k in range(1, N + 1):
                 counter = Counter(k, FAULT_KINDS[(idx + k) % len(FAULT_KINDS)])
                 w = make_writer(ctx, route, counter)
-                sink = Sink(binary)
+                sink = Sink(binary) if binary or (idx + k) % 2 else StringSink()
                 raised = False
                 try:
                     w(sink)
